@@ -68,8 +68,10 @@ def sh(cmd, **kw):
 
 def sync():
     os.makedirs(os.path.join(SCRATCH, "verif"), exist_ok=True)
-    sh("rsync -a --delete --exclude target --exclude .git /repo/ %s/repo/" % SCRATCH)
-    sh("rsync -a --exclude target %s/ %s/verif/harness/" % (vlib.HARNESS, SCRATCH))
+    # by checksum and WITHOUT preserving times: a file whose content is restored gets a fresh mtime
+    # (cargo's freshness test), an identical file is left alone
+    sh("rsync -rlpc --delete --exclude target --exclude .git /repo/ %s/repo/" % SCRATCH)
+    sh("rsync -rlpc --exclude target %s/ %s/verif/harness/" % (vlib.HARNESS, SCRATCH))
 
 
 def run_check():
@@ -106,7 +108,12 @@ def main():
             results[name] = "anchor"
             continue
         open(p, "w").write(src.replace(old, new))
-        rc, nsig, sigs = run_check()
+        try:
+            rc, nsig, sigs = run_check()
+        finally:
+            # restore by rewriting (fresh mtime): cargo decides freshness by mtime, an rsync -a restore
+            # would keep the old mtime and leave the mutant compiled into the scratch target
+            open(p, "w").write(src)
         results[name] = {0: "SURVIVED", 1: "caught", 2: "tool-error"}[rc]
         print("MUTANT %-28s %-10s (%s) %d signature(s) %s" % (name, results[name], what, nsig, sigs), flush=True)
     sync()
